@@ -1083,6 +1083,118 @@ Proof.
     rewrite DL''. rewrite firstn_ex. symmetry. apply flat_map_fit_ex.
 Qed.
 
+
+(* ---------- no panic: get_range on consistent offsets, any repeat counts (zero, huge) ---------- *)
+Lemma pass2R_nopanic : forall c0 c1 ec l st,
+  q_cons st + N.of_nat (length l) <= q_rmax st + 1 ->
+  q_rmax st + q_err st + sumk l <= USIZE_MAX ->
+  exists st', pass2R c0 c1 ec l st = Ok st' /\
+              q_rmax st' + q_err st' <= q_rmax st + q_err st + sumk l.
+Proof.
+  intros c0 c1 ec. induction l as [|[row k] l IH]; intros [E C rm out] H1 H2.
+  - exists (mkP2 E C rm out). split; [reflexivity|]. lia.
+  - cbn [q_err q_cons q_rmax q_out length] in H1, H2. rewrite sumk_cons in H2.
+    cbn [pass2R]. unfold p2_row. cbn [q_err q_cons q_rmax q_out].
+    destruct (forallb isd row).
+    + rewrite chk_ok by lia. cbn [obind].
+      destruct (IH (mkP2 (E + k) (C + 1) rm out)) as (st' & HS & HB);
+        cbn [q_err q_cons q_rmax q_out]; [lia|lia|].
+      exists st'. split; [exact HS|]. cbn [q_err q_cons q_rmax q_out] in HB |- *.
+      rewrite sumk_cons. lia.
+    + destruct (N.ltb_spec 0 E) as [HE|HE].
+      * rewrite chk_ok by lia. cbn [obind].
+        assert (E1 : (C <=? rm + E) = true) by (apply N.leb_le; lia).
+        rewrite E1. cbn [obind q_err q_cons q_rmax q_out].
+        destruct (N.ltb_spec 1 k) as [Hk|Hk].
+        -- rewrite chk_ok by lia. cbn [obind].
+           match goal with |- context [pass2R _ _ _ l ?s] =>
+             destruct (IH s) as (st' & HS & HB); cbn [q_err q_cons q_rmax q_out]; [lia|lia|] end.
+           exists st'. split; [exact HS|]. cbn [q_err q_cons q_rmax q_out] in HB |- *.
+           rewrite sumk_cons. lia.
+        -- cbn [obind].
+           match goal with |- context [pass2R _ _ _ l ?s] =>
+             destruct (IH s) as (st' & HS & HB); cbn [q_err q_cons q_rmax q_out]; [lia|lia|] end.
+           exists st'. split; [exact HS|]. cbn [q_err q_cons q_rmax q_out] in HB |- *.
+           rewrite sumk_cons. lia.
+      * cbn [obind q_err q_cons q_rmax q_out].
+        destruct (N.ltb_spec 1 k) as [Hk|Hk].
+        -- rewrite chk_ok by lia. cbn [obind].
+           match goal with |- context [pass2R _ _ _ l ?s] =>
+             destruct (IH s) as (st' & HS & HB); cbn [q_err q_cons q_rmax q_out]; [lia|lia|] end.
+           exists st'. split; [exact HS|]. cbn [q_err q_cons q_rmax q_out] in HB |- *.
+           rewrite sumk_cons. lia.
+        -- cbn [obind].
+           match goal with |- context [pass2R _ _ _ l ?s] =>
+             destruct (IH s) as (st' & HS & HB); cbn [q_err q_cons q_rmax q_out]; [lia|lia|] end.
+           exists st'. split; [exact HS|]. cbn [q_err q_cons q_rmax q_out] in HB |- *.
+           rewrite sumk_cons. lia.
+Qed.
+
+Theorem get_range_nopanic : forall (L : list (list T * N)) (W : N),
+  sumk L <= TWO32 -> N.of_nat (length L) <= ISIZE_MAX ->
+  Forall (fun rk => N.of_nat (length (fst rk)) <= W) L ->
+  N.of_nat (length L) * W <= USIZE_MAX ->
+  exists r, get_range d isd (concat (map fst L)) (0 :: offs 0 (map fst L)) (map snd L) = Ok r.
+Proof.
+  intros L W Hsum Hlen HW Hcells.
+  set (g := map fst L). set (rr := map snd L).
+  assert (Hrr : sum_list rr = sumk L) by reflexivity.
+  assert (H32 : 4 * TWO32 + ISIZE_MAX <= USIZE_MAX)
+    by (unfold TWO32, USIZE_MAX, U64MAX, ISIZE_MAX; lia).
+  assert (Hs64 : sum_list rr <= USIZE_MAX) by lia.
+  unfold get_range. rewrite windows2_offs.
+  pose proof (pass1_refine g [] [] rr 0 p1_init) as P1.
+  cbn [app length N.of_nat] in P1. rewrite app_nil_r in P1. rewrite P1. clear P1.
+  pose proof (pass1R_summ rr g [] Hs64) as P1. cbn [length app] in P1.
+  change (summ rr []) with p1_init in P1. rewrite P1. clear P1. cbn [obind].
+  unfold summ. cbn [p_rmin p_rmax p_cmin p_cmax p_fer].
+  destruct (ffirst (row_used isd) g) as [i0|] eqn:Ei0; [|eexists; reflexivity].
+  destruct (ffirst_flast_some _ _ Ei0) as (i1 & Ei1 & Hle).
+  destruct (ffirst_some _ _ Ei0) as (Li0 & Ui0 & _).
+  destruct (flast_some _ _ Ei1) as (Li1 & _ & _).
+  rewrite Ei1.
+  assert (Lg : length g = length L) by (unfold g; apply map_length).
+  set (row0 := nth i0 g []).
+  assert (In0 : In row0 g) by (apply nth_In; exact Li0).
+  destruct (position isd row0) as [p0|] eqn:Ep0;
+    [|apply position_none in Ep0; unfold row0 in Ep0; rewrite (Ui0 []) in Ep0; discriminate].
+  destruct (min_col_le _ _ In0 Ep0) as (c0 & Ec0 & _). rewrite Ec0.
+  set (c1 := max_col isd g).
+  assert (HWg : forall row, In row g -> N.of_nat (length row) <= W).
+  { intros row Hin. unfold g in Hin. apply in_map_iff in Hin. destruct Hin as (rk & <- & Hin).
+    rewrite Forall_forall in HW. apply HW. exact Hin. }
+  assert (Hc1 : N.of_nat c1 < W).
+  { unfold position in Ep0. destruct (ffirst_some _ _ Ep0) as (Lp0 & _ & _).
+    pose proof (HWg row0 In0) as Hw0.
+    assert (Hlt : (c1 < N.to_nat W)%nat).
+    { apply max_col_lt; [lia|]. intros row Hin. pose proof (HWg row Hin). lia. }
+    lia. }
+  rewrite chk_ok.
+  2:{ apply N.le_trans with (N.of_nat (length L) * W); [|exact Hcells]. apply N.mul_le_mono; lia. }
+  cbn [obind].
+  rewrite skipn_spans, firstn_spans. rewrite N.add_0_l.
+  remember (firstn (i1 + 1) (skipn i0 L)) as L' eqn:DL'.
+  assert (Eg' : firstn (i1 + 1) (skipn i0 g) = map fst L')
+    by (subst L'; unfold g; rewrite skipn_map', firstn_map'; reflexivity).
+  assert (Er' : firstn (i1 + 1) (skipn i0 rr) = map snd L')
+    by (subst L'; unfold rr; rewrite skipn_map', firstn_map'; reflexivity).
+  rewrite Eg', Er'.
+  replace (concat g) with
+    (concat (firstn i0 g) ++ concat (map fst L') ++ concat (skipn (i1 + 1) (skipn i0 g))).
+  2:{ rewrite <- Eg', <- !concat_app, !firstn_skipn. reflexivity. }
+  rewrite pass2_refine, combine_fst_snd.
+  assert (SL' : sumk L' <= sumk L).
+  { subst L'. eapply N.le_trans; [apply sumk_firstn_le|apply sumk_skipn_le]. }
+  assert (LL' : (length L' <= i1 + 1)%nat) by (subst L'; rewrite firstn_length; lia).
+  destruct (@pass2R_nopanic c0 c1 (repeat d (c1 + 1)) L' (mkP2 0 0 (N.of_nat i1) []))
+    as (st' & HS & HB); cbn [q_err q_cons q_rmax q_out]; [lia|lia|].
+  cbn [q_err q_cons q_rmax q_out] in HB.
+  rewrite HS. cbn [obind].
+  pose proof (sum_firstn_le i0 rr) as Hf.
+  rewrite chk_ok by lia. cbn [obind]. rewrite chk_ok by lia. cbn [obind].
+  eexists; reflexivity.
+Qed.
+
 Lemma nth_app_default : forall (a : list T) n c, nth c (a ++ repeat d n) d = nth c a d.
 Proof.
   intros a n c. destruct (Nat.lt_ge_cases c (length a)) as [Hlt|Hge].
@@ -1156,12 +1268,28 @@ Proof.
   rewrite app_length, repeat_length, sum_list_cons. lia.
 Qed.
 
-Lemma read_rows_eq : forall (rows : list rowT) len,
-  read_rows dV dF isdV isdF rows len =
-  (concat (map prow rows), offs len (map prow rows), map (@re_rep V F) rows).
+Lemma total_rows_cons : forall (r : rowT) rows, total_rows (r :: rows) = re_rep r + total_rows rows.
+Proof. intros. unfold total_rows. cbn [map]. apply sum_list_cons. Qed.
+
+(* the 2^32 limit of read_table: accepted exactly when the announced rows are at most 2^32 *)
+Lemma read_rows_cases : forall (rows : list rowT) len tot, tot <= TWO32 ->
+  (tot + total_rows rows <= TWO32 /\
+   read_rows dV dF isdV isdF rows len tot =
+   Ok (concat (map prow rows), offs len (map prow rows), map (@re_rep V F) rows)) \/
+  (TWO32 < tot + total_rows rows /\ exists e, read_rows dV dF isdV isdF rows len tot = Err e).
 Proof.
-  induction rows as [|r rows IH]; intros len; [reflexivity|].
-  cbn [read_rows map concat offs]. rewrite IH. reflexivity.
+  assert (H32 : TWO32 < U64MAX) by (unfold TWO32, U64MAX; lia).
+  induction rows as [|r rows IH]; intros len tot Ht.
+  - left. split; [unfold total_rows; cbn [map]; rewrite sum_list_nil; lia|reflexivity].
+  - rewrite total_rows_cons. cbn [read_rows].
+    change (read_row dV dF isdV isdF (re_cells r) 0) with (prow r).
+    destruct (N.ltb_spec TWO32 (N.min (tot + re_rep r) U64MAX)) as [Hgt|Hle].
+    + right. split; [lia|]. eexists; reflexivity.
+    + assert (Em : N.min (tot + re_rep r) U64MAX = tot + re_rep r) by lia. rewrite Em in *.
+      destruct (IH (len + N.of_nat (length (prow r))) (tot + re_rep r) Hle)
+        as [(Hs & HI)|(Hs & e & HI)].
+      * left. split; [lia|]. rewrite HI. reflexivity.
+      * right. split; [lia|]. exists e. rewrite HI. reflexivity.
 Qed.
 
 Lemma max_width_ge : forall (rows : list rowT) r, In r rows -> row_width r <= max_width rows.
@@ -1232,10 +1360,71 @@ Theorem read_table_correct : forall rows : list rowT,
   read_table dV dF isdV isdF rows = Ok (spec_table dV dF isdV isdF rows).
 Proof.
   intros rows Hpos Hext. unfold read_table, spec_table, values_of, formulas_of.
-  rewrite read_rows_eq.
+  assert (H1 : total_rows rows <= TWO32).
+  { unfold extent_ok in Hext. apply andb_prop in Hext. destruct Hext as [Hext _].
+    apply andb_prop in Hext. destruct Hext as [H1 _]. apply N.leb_le in H1. exact H1. }
+  destruct (@read_rows_cases rows 0 0) as [(_ & HR)|(Hs & _)]; [unfold TWO32; lia| |lia].
+  rewrite HR. cbn [obind].
   rewrite (@get_range_proj _ dV isdV fst rows isdV_spec eq_refl Hpos Hext). cbn [obind].
   rewrite (@get_range_proj _ dF isdF snd rows isdF_spec eq_refl Hpos Hext). cbn [obind].
   reflexivity.
+Qed.
+
+(* read_table rejects (with an error, never a panic) exactly the tables announcing more than
+   2^32 rows *)
+Theorem read_table_row_limit : forall rows : list rowT,
+  TWO32 < total_rows rows -> exists e, read_table dV dF isdV isdF rows = Err e.
+Proof.
+  intros rows H. unfold read_table.
+  destruct (@read_rows_cases rows 0 0) as [(Hs & _)|(_ & e & HR)]; [unfold TWO32; lia|lia|].
+  exists e. rewrite HR. reflexivity.
+Qed.
+
+Lemma get_range_proj_nopanic : forall (U : Type) (dU : U) (isdU : U -> bool) (pr : V * F -> U)
+  (rows : list rowT),
+  (forall x, isdU x = true <-> x = dU) ->
+  total_rows rows <= TWO32 -> phys_ok rows = true ->
+  exists r, get_range dU isdU (map pr (concat (map prow rows))) (0 :: offs 0 (map prow rows))
+                      (map (@re_rep V F) rows) = Ok r.
+Proof.
+  intros U dU isdU pr rows HU Htot Hph.
+  set (LV := map (fun r => (map pr (prow r), re_rep r)) rows).
+  assert (E1 : map pr (concat (map prow rows)) = concat (map fst LV)).
+  { unfold LV. rewrite concat_map, !map_map. reflexivity. }
+  assert (E2 : offs 0 (map prow rows) = offs 0 (map fst LV)).
+  { unfold LV. rewrite map_map. cbn [fst]. rewrite <- (offs_map pr (map prow rows)).
+    rewrite map_map. reflexivity. }
+  assert (E3 : map (@re_rep V F) rows = map snd LV).
+  { unfold LV. rewrite map_map. reflexivity. }
+  rewrite E1, E2, E3.
+  unfold phys_ok in Hph. apply andb_prop in Hph. destruct Hph as [P1 P2].
+  apply N.leb_le in P1, P2.
+  assert (Sk : sumk LV = total_rows rows).
+  { unfold sumk, total_rows. rewrite <- E3. reflexivity. }
+  assert (Ln : length LV = length rows) by (unfold LV; apply map_length).
+  apply (@get_range_nopanic U dU isdU HU LV (max_width rows)).
+  - rewrite Sk. exact Htot.
+  - rewrite Ln. exact P1.
+  - apply Forall_forall. intros rk Hin. unfold LV in Hin. apply in_map_iff in Hin.
+    destruct Hin as (r & <- & Hin). cbn [fst]. rewrite map_length.
+    pose proof (max_width_ge _ _ Hin) as Hw. unfold row_width in Hw.
+    rewrite <- expand_cells_length in Hw.
+    destruct (prow_expand r) as (n & Hn). rewrite Hn, app_length in Hw. lia.
+  - rewrite Ln. exact P2.
+Qed.
+
+(* totality: for EVERY list of row elements (zero counts, huge counts, anything) that a machine
+   can hold, read_table returns Ok or Err, never a panic *)
+Theorem read_table_no_panic : forall rows : list rowT,
+  phys_ok rows = true -> read_table dV dF isdV isdF rows <> Panic.
+Proof.
+  intros rows Hph. unfold read_table.
+  destruct (@read_rows_cases rows 0 0) as [(Hs & HR)|(_ & e & HR)]; [unfold TWO32; lia| |].
+  - rewrite HR. cbn [obind].
+    destruct (@get_range_proj_nopanic _ dV isdV fst rows isdV_spec) as (rv & Hv); [lia|exact Hph|].
+    destruct (@get_range_proj_nopanic _ dF isdF snd rows isdF_spec) as (rf & Hf); [lia|exact Hph|].
+    rewrite Hv, Hf. cbn [obind]. discriminate.
+  - rewrite HR. cbn [obind]. discriminate.
 Qed.
 
 (* the cell function of the expansion *)
@@ -1289,6 +1478,20 @@ Theorem ods_grid_main : forall rows : list (row_elem data str),
 Proof.
   intros rows Hp He. unfold ods_read_table, ods_spec_table.
   apply read_table_correct; [exact data_is_empty_spec|exact str_is_empty_spec|exact Hp|exact He].
+Qed.
+
+Theorem ods_read_table_no_panic : forall rows : list (row_elem data str),
+  phys_ok rows = true -> ods_read_table rows <> Panic.
+Proof.
+  intros rows H. unfold ods_read_table.
+  apply read_table_no_panic; [exact data_is_empty_spec|exact str_is_empty_spec|exact H].
+Qed.
+
+Theorem ods_read_table_row_limit : forall rows : list (row_elem data str),
+  TWO32 < total_rows rows -> exists e, ods_read_table rows = Err e.
+Proof.
+  intros rows H. unfold ods_read_table.
+  apply read_table_row_limit; first [exact H|exact data_is_empty_spec|exact str_is_empty_spec].
 Qed.
 
 Theorem ods_rle_independent : forall r1 r2 : list (row_elem data str),
@@ -1734,3 +1937,22 @@ Proof.
 Qed.
 
 End Sound.
+
+(* non-vacuity of phys_ok: lists with zero and huge counts are inside it; one is rejected by the
+   row limit, the other is read (both without panic) *)
+Definition ex_huge : list (row_elem data str) :=
+  [ mkRow 0 [mkCell 0 (DFloat [49]) [] false];
+    mkRow 4294967296 [];
+    mkRow 1 [mkCell 3 DEmpty [] false; mkCell 2 (DFloat [49]) [] true] ].
+Definition ex_zero : list (row_elem data str) :=
+  [ mkRow 0 [mkCell 1 DEmpty [] false];
+    mkRow 4294967294 [mkCell 2147483647 DEmpty [] false];
+    mkRow 2 [mkCell 0 (DString [97]) [] false; mkCell 2 (DFloat [49]) [] false] ].
+
+Example no_panic_nonvacuous :
+  phys_ok ex_huge = true /\ (exists e, ods_read_table ex_huge = Err e) /\
+  phys_ok ex_zero = true /\ (exists r, ods_read_table ex_zero = Ok r).
+Proof.
+  split; [vm_compute; reflexivity|]. split; [eexists; vm_compute; reflexivity|].
+  split; [vm_compute; reflexivity|]. eexists; vm_compute; reflexivity.
+Qed.
